@@ -444,12 +444,13 @@ Qed.
 Theorem pgt_refines_arch ras root fuel :
   check_of (pte_format pf) = Some (af_check af) ->
   pte_size (pte_format pf) = Some (af_ptesz af) ->
+  (length fs <= pf_max_fields (pte_format pf))%nat ->
   wf_form (af_check af) fs -> va < 2^64 ->
   (length fs <= fuel)%nat ->
   observe (addrxlat_walk readmem {| m_kind := KPgt ras root mask pf; m_target := tgt |} fuel (init_step va))
   = arch_walk readmem af tgt mask fs va ras root.
 Proof.
-  intros Hck Hps (Hlen & Hlt & Hc) Hva Hfuel.
+  intros Hck Hps Hmax (Hlen & Hlt & Hc) Hva Hfuel.
   unfold addrxlat_walk, arch_walk, init_step. cbn [first_step m_kind s_base].
   set (s0 := mkstep NOADDR va 0 0 [] 0).
   assert (Hgen : first_step_pgt_generic ras root pf s0 va =
@@ -471,6 +472,7 @@ Proof.
     destruct (Nat.ltb_spec 1 (length fs)); destruct (Nat.eqb_spec (length fs - 1) 0); try reflexivity; lia. }
   assert (Hrem : s_remain s1 = S (length fs - 1)) by (unfold s1; cbn [s_remain]; lia).
   unfold first_step_pgt.
+  destruct (Nat.ltb_spec (pf_max_fields (pte_format pf)) (length fs)) as [Hbad|_]; [lia|].
   destruct (pte_format pf) eqn:Ef; cbn [check_of] in Hck; cbn [pte_size] in Hps; try discriminate;
     injection Hck as Hck; rewrite <- Hck in *; rewrite Hgen;
     destruct ras; try reflexivity; fold s1;
